@@ -13,6 +13,7 @@ capsule model.
   c03.lessstricttotal <ety> <p>* → 0 | 1 | unmodelled     `Payload.lessStrictTotal` (members must be in the carrier)
   c03.setwf <v>                  → 0 | 1 | unmodelled     `Payload.setWF` of a known set value (unmodelled: not a set
                                                           payload, or a capsule type inside)
+  c03.deepmember <v>             → 0 | 1 | unmodelled     `Payload.deepMember` (unmodelled: a capsule type inside)
   c03.capsule <eq> <raw> <key> <id>*
                                  → <eqv bits> <rawEqv bits> <hash text hex>,* (<iteration order>)
         the capsule operations are: Equals a b := a % eq == b % eq (absent when eq = 0), RawEquals likewise
@@ -77,6 +78,9 @@ def handleD03b : Handler := fun op args =>
   | "c03.canon", [v] => do pure (HD03b.canonStr (← Value.ofSexp v))
   | "c03.lessstricttotal", ety :: ms => do pure (HD03b.lessStrictTotalStr (← Ty.ofSexp ety) (← ms.mapM Payload.ofSexp))
   | "c03.setwf", [v] => do pure (HD03b.setWFStr (← Value.ofSexp v))
+  | "c03.deepmember", [v] => do
+    let v ← Value.ofSexp v
+    pure (if !D03b.capFree v.ty then "unmodelled" else HD03b.b01 (v.v.deepMember v.ty))
   | "c03.tiefree", ety :: ms => do pure (HD03b.tieFreeStr (← Ty.ofSexp ety) (← ms.mapM Payload.ofSexp))
   | "c03.capsule", eq :: raw :: key :: ids => do
     pure (HD03b.capsStr (← Sexp.decNat eq) (← Sexp.decNat raw) (← Sexp.decNat key) (← ids.mapM Sexp.decNat))
